@@ -41,8 +41,16 @@ let parse_fields toks = List.map (fun t -> match String.index_opt t '=' with
     | Some i -> (String.sub t 0 i, String.sub t (i + 1) (String.length t - i - 1))
     | None -> (t, "")) toks
 
+(* child templates "script:ntasks:chain,..." *)
+let tmpls_of_string s =
+  List.map (fun p -> match split_on ':' p with
+      | [sc; n; c] -> { tp_script = nat_s sc; tp_ntasks = nat_s n; tp_chain = b01 c }
+      | _ -> failwith ("tmpl " ^ p)) (split_on ',' s)
+
 let parse_stage toks =
-  let f = field (parse_fields toks) in
+  let kvs = parse_fields toks in
+  let f = field kvs in
+  let fo k d = try List.assoc k kvs with Not_found -> d in
   { s_reqs = List.map nat_s (split_on ',' (f "reqs")); s_join = join_of_string (f "join");
     s_threshold = z_s (f "thr"); s_cof = b01 (f "cof"); s_fp = b01 (f "fp");
     s_enabled = opt b01 (f "en"); s_mutex = opt nat_s (f "mutex"); s_choice = opt nat_s (f "choice");
@@ -51,7 +59,11 @@ let parse_stage toks =
     s_version = Z0; s_fired = false; s_branches = []; s_bypass = false; s_jump_count = Z0; s_buffered = [];
     s_signal = None; s_has_exc = false; s_plan_pending = false; s_hydrated = []; s_ctx = kv_of_string (f "ctx"); s_outs = [];
     s_tasks = (let dis = List.map int_of_string (split_on ',' (f "dis")) in
-               List.init (int_of_string (f "tasks")) (fun t -> mk_task (List.mem t dis))) }
+               List.init (int_of_string (f "tasks")) (fun t -> mk_task (List.mem t dis)));
+    s_syn = { y_parent = None; y_owner = None; y_script = nat_s (f "script"); y_ntasks = O;
+              y_before = tmpls_of_string (fo "before" ""); y_after = tmpls_of_string (fo "after" "");
+              y_fail = tmpls_of_string (fo "fail" "") };
+    s_onfail = false }
 
 let parse_step s =
   let kind, arg = match String.index_opt s ':' with
@@ -79,12 +91,17 @@ let string_of_msg = function
   | MPauseTask (i, t) -> Printf.sprintf "PauseTask(%d,%d)" (int_of_nat i) (int_of_nat t)
   | MResumeStage i -> Printf.sprintf "ResumeStage(%d)" (int_of_nat i)
   | MRestartStage i -> Printf.sprintf "RestartStage(%d)" (int_of_nat i)
+  | MContinueParent (i, o, k) -> Printf.sprintf "ContinueParentStage(%d,%s,%d)" (int_of_nat i)
+                                   (match o with OwnBefore -> "B" | OwnAfter -> "A") (int_of_z k)
 
 let string_of_state s =
   let b = Buffer.create 512 in
   Printf.bprintf b "W %s %s |" (string_of_status s.w_status) (sb s.w_canceled);
   List.iteri (fun i st ->
-      Printf.bprintf b " S%d %s %s%s v%d f%s [%s] b%s j%d q%d g%s e%s p%s h[%s] {%s} {%s} [%s];" i (string_of_status st.s_status)
+      Printf.bprintf b " S%d u%s%s n%s %s %s%s v%d f%s [%s] b%s j%d q%d g%s e%s p%s h[%s] {%s} {%s} [%s];" i
+        (match st.s_syn.y_parent with None -> "-" | Some p -> string_of_int (int_of_nat p))
+        (match st.s_syn.y_owner with None -> "-" | Some OwnBefore -> "B" | Some OwnAfter -> "A")
+        (sb st.s_onfail) (string_of_status st.s_status)
         (sb st.s_started) (sb st.s_ended) (int_of_z st.s_version) (sb st.s_fired)
         (String.concat "," (List.map (fun n -> string_of_int (int_of_nat n)) st.s_branches))
         (sb st.s_bypass) (int_of_z st.s_jump_count) (List.length st.s_buffered)
@@ -109,8 +126,13 @@ let failing_clauses s =
 
 let () =
   let stages = ref [] and wmax = ref None and scripts = Hashtbl.create 16 and st = ref None in
+  (* the model asks for the behaviour of task t of the stage at row i: the scripted behaviour is looked up by the
+     template label of that row (y_script), so that stages created at run time find theirs *)
   let orc i t n =
-    match Hashtbl.find_opt scripts (int_of_nat i, int_of_nat t) with
+    let label = match !st with
+      | Some s -> (match List.nth_opt s.w_stages (int_of_nat i) with Some x -> int_of_nat x.s_syn.y_script | None -> int_of_nat i)
+      | None -> int_of_nat i in
+    match Hashtbl.find_opt scripts (label, int_of_nat t) with
     | None -> RSucceed []
     | Some steps -> let k = int_of_nat n in List.nth steps (min k (List.length steps - 1)) in
   let get () = match !st with Some s -> s | None ->
